@@ -172,7 +172,7 @@ pub struct SimStats {
   pub order_flipped: u64, pub both_devices_ready: u64, pub kbd_unplugged: u64, pub tab_unplugged: u64, pub arrival_during_drain: u64,
   pub backoff_sleeps: u64, pub multi_event_wakeups: u64, pub max_events_one_wakeup: u64, pub timer_ticks: u64, pub trace_cap_hit: u64,
   pub os_write_fault: [u64; 3], pub os_read_fault: u64, pub real_polls_compared: u64,
-  pub os_poll_fault: [u64; 3], pub os_sysread_fault: u64, pub sys_extra_devices_listed: u64, pub os_syswrite_fault: [u64; 4], pub syswrite_partial_frames: u64, pub syswrite_retried_ok: u64, pub sys_writes: u64, pub sys_reads_kbd: u64, pub sys_reads_tab: u64, pub sys_waits: u64, pub sys_wait_timeouts: u64, pub sys_wait_eintr: u64, pub sys_wait_events: u64, pub sys_stale_dropped: u64, pub sys_fabricated_ready: u64, pub sys_polls_through_real_driver: u64, pub sys_subms_truncated: u64,
+  pub os_poll_fault: [u64; 3], pub os_sysread_fault: u64, pub zero_timeout_looks: u64, pub sys_extra_devices_listed: u64, pub os_syswrite_fault: [u64; 4], pub syswrite_partial_frames: u64, pub syswrite_retried_ok: u64, pub sys_writes: u64, pub sys_reads_kbd: u64, pub sys_reads_tab: u64, pub sys_waits: u64, pub sys_wait_timeouts: u64, pub sys_wait_eintr: u64, pub sys_wait_events: u64, pub sys_stale_dropped: u64, pub sys_fabricated_ready: u64, pub sys_polls_through_real_driver: u64, pub sys_subms_truncated: u64,
 }
 
 pub trait ByteLayer {
@@ -707,6 +707,14 @@ impl<'a> VerifDriver for Sim<'a> {
     let t_in = self.now();
     let to_us = timeout.map(|d| d.as_micros() as u64);
     if self.trace.len() > self.cap { self.stats.trace_cap_hit += 1; self.unplug_keyboard_now(); }
+    if to_us == Some(0) && !(self.kbd_notify || self.tab_notify) {
+      // a look with a zero time-out never waits: nothing is new, it says so at once (no clock movement,
+      // no fault, and it is not a tick of the repeat timer as far as the run bounds are concerned)
+      self.stats.zero_timeout_looks += 1;
+      self.cross_check_real_poll(None);
+      self.trace.push(Item::Poll { t_in, timeout: to_us, res: PollRes::TimedOut, t_out: self.now(), unread: (self.kbd_ready.len() + self.tab_ready.len()) as u32 });
+      return Ok(VPoll::TimedOut);
+    }
     if !(self.kbd_notify || self.tab_notify) {
       let next_arrival = self.next_event_time();
       // a timeout of more than ~11 days of simulated time is an unarmed wait for scheduling purposes
@@ -1021,8 +1029,12 @@ pub fn check_trace(l: &Layout, trace: &[Item], result: &Result<(), String>, en: 
           for e in &g.evs { fold1(&mut held, e); }
           for k in &g.set { held.retain(|x| x != k); }
         }
-        if owed_k { report!("C10-undrained", i, "polled again without reading the keyboard until Busy/End after a readiness notification".to_string()); owed_k = false; }
-        if owed_t { report!("C10-undrained", i, "polled again without reading the tablet switch until Busy/End after a readiness notification".to_string()); owed_t = false; }
+        // "never goes back to WAITING while events it has been notified about are still unread": a look
+        // with a zero time-out does not wait; the debt stands until the device has been read dry
+        if *timeout != Some(0) {
+          if owed_k { report!("C10-undrained", i, "went back to waiting without reading the keyboard until Busy/End after a readiness notification".to_string()); owed_k = false; }
+          if owed_t { report!("C10-undrained", i, "went back to waiting without reading the tablet switch until Busy/End after a readiness notification".to_string()); owed_t = false; }
+        }
         // timer: the deadline is anchored somewhere between the moment the arming event was read
         // and the moment the loop waits again (the statement does not say when exactly the clock is
         // read); once a poll has pinned it down, every later deadline is exact
@@ -1032,7 +1044,10 @@ pub fn check_trace(l: &Layout, trace: &[Item], result: &Result<(), String>, en: 
         // a wait that ends before the chord can be due ("waits for at most delay_ms") is allowed,
         // as long as no chord is written before its time
         let mut early_poll = false;
-        if let Some(t) = timer.as_mut() {
+        // (a zero-time-out look made while announced input is still to be read says nothing about where
+        // the loop thinks its deadline is)
+        let look_with_debt = *timeout == Some(0) && (owed_k || owed_t);
+        if let Some(t) = timer.as_mut().filter(|_| !look_with_debt) {
           overdue_possible = t.lo <= *t_in;
           match timeout {
             None => { timeout_ok = false; }
@@ -1080,10 +1095,16 @@ pub fn check_trace(l: &Layout, trace: &[Item], result: &Result<(), String>, en: 
             stale_unread = *unread > 0 && timer.is_some() && !tablet;
             if let Some(t) = timer.as_mut() {
               if !tablet {
-                if early_poll && *t_out < t.lo {
+                if stale_unread && (owed_k || owed_t) {
+                  // the loop still has announced input to read (it only looked, with a zero time-out): input
+                  // comes first, nothing is owed — and a chord written now is reported when it is written
+                } else if early_poll && *t_out < t.lo {
                   // woke up before the deadline can have passed: nothing is owed
                 } else {
-                  let optional = early_poll && *t_out < t.hi;
+                  // a look with a zero time-out that the loop made because it still had announced input to
+                  // read is not the timer's wait: whether it takes the overdue chord now or after reading is its
+                  // own business (begun => owed in full; not begun => not due yet)
+                  let optional = (early_poll && *t_out < t.hi) || look_with_debt;
                   let ks: Vec<KeyCode> = t.keys.iter().filter(|k| !held.contains(k)).cloned().collect();
                   if ks.len() != t.keys.len() { obs.chord_key_held += 1; }
                   let mut ch = VecDeque::new();
@@ -1261,7 +1282,7 @@ pub fn check_trace(l: &Layout, trace: &[Item], result: &Result<(), String>, en: 
     }
   } else {
     while let Some(g) = pending.pop_front() {
-      if group_done(&g) { continue; }
+      if group_done(&g) || g.optional { continue; }
       match g.kind {
         Kind::Step => report!("C10-missing-send", n, format!("the mapper's output {} was never written", group_str(&g))),
         Kind::Chord => report!("C11-missing-chord", n, format!("repeat chord {} was never written", group_str(&g))),
